@@ -253,8 +253,12 @@ class ThrProjector:
         return [0, 0]
 
     def is_score_or_sentinel(self, t):
+        """an actual score, or a sentinel just outside the score range - both "up to a few ulp" (the
+        property's own comparison rule: one ulp is what the code uses today, not what is claimed)"""
         t = float(t)
-        return t in self.kf or t == self.below or t == self.above
+        if t in self.kf or t == self.below or t == self.above:
+            return True
+        return any(gamma.ulp_diff(t, k) <= 8.0 for k in self.kf)
 
 
 def step(t, k):
